@@ -180,6 +180,8 @@ func runIPServer(ctx context.Context, log *slog.Logger, mtrcs *ipServerMetrics,
 			}
 			if !addedCookie {
 				log.LogAttrs(ctx, slog.LevelInfo, "failed to add at least one cookie")
+				// No reply is sent: the exchange must not stay on record.
+				updateTXTimestamp(clientID, rxt, &txt0)
 				continue
 			}
 
@@ -190,6 +192,8 @@ func runIPServer(ctx context.Context, log *slog.Logger, mtrcs *ipServerMetrics,
 		n, err = conn.WriteToUDPAddrPort(buf, srcAddr)
 		if err != nil || n != len(buf) {
 			log.LogAttrs(ctx, slog.LevelError, "failed to write packet", slog.Any("error", err))
+			// No reply was sent: the exchange must not stay on record.
+			updateTXTimestamp(clientID, rxt, &txt0)
 			continue
 		}
 		txt1, id, err := udp.ReadTXTimestamp(conn)
